@@ -31,6 +31,7 @@ RULE = ("paired runs in one process, constructed so that the floating-point "
         "n, #fixed, scale)")
 RULE += ("  Also: completed options / constants of the two statements compared (budgets left to their defaults); regrouping of linear rows of any kind with the internal-row-order model deciding which differences are the known finding; one vector-valued NonlinearConstraint <-> one object per component with undefined values on one component; limits exactly 0; unit scaling factors.")
 RULE += (" Equalities in the NaN-limit restatements; disp=True with reachable resolution reductions; a first statement that raises after evaluations is compared, not skipped; the transformed statement maps points with the harness's own map.")
+RULE += (' Regrouped rows with mixed magnitudes (a huge one-sided limit next to a narrow two-sided row).')
 ASSUMPTIONS = [
     "numpy/scipy/LAPACK deterministic for identical inputs in one process",
     "a by-hand elimination/rescaling differs by BLAS-shape-dependent "
